@@ -7,6 +7,7 @@ import Peppi.Lemmas.Unified
 import Peppi.Lemmas.C10A
 import Peppi.Stream
 import Peppi.Hash
+import Peppi.Lemmas.Unified2
 set_option linter.unusedVariables false
 namespace Peppi.Props.C11
 
@@ -54,5 +55,12 @@ theorem hexN_lower (k n : Nat) : ∀ c ∈ hexN k n, isLowerHex c = true :=
 /- from `Peppi.Hash` -/
 theorem formatHash_inj (a b : Nat) (ha : a < 2 ^ 64) (hb : b < 2 ^ 64) (h : formatHash a = formatHash b) : a = b :=
   _root_.Peppi.formatHash_inj a b ha hb h
+
+/- from `Peppi.Lemmas.Unified2` -/
+open Extracted in
+theorem C11_range_any (T : TextOracle) (r : Replay) (s : Start) (gk : Option GeckoBlocks) (h : r.WFAny T s gk) (hash : Bool) :
+    ∃ g, readSlp T { skipFrames := false, computeHash := hash } (r.encodeAny s.version (portOccupancy s) gk) = .ok g ∧
+      g.hashedLen = (if hash then some (r.encodeAny s.version (portOccupancy s) gk).length else none) :=
+  _root_.Peppi.C11_range_any T r s gk h hash
 
 end Peppi.Props.C11
